@@ -43,7 +43,9 @@ CLAIMED = {
                      'get_overlap_slices selects exactly the common pixels (None iff none); '
                      'union/intersection/shape/extent/center; the method -> (use_exact, subpixels) '
                      'dispatch incl. the 32x32 rectangle rule; aperture parameter assignment '
-                     'resets every cache and no cached value is written in place. The overlap-'
+                     'resets every cache and no cached value is written in place; per position the '
+                     'mask is the kernel grid of the outer axes minus that of the inner axes on the '
+                     'same pixel grid (circles, ellipses, rectangles). The overlap-'
                      'area values of the compiled kernels are checked bounded on a boundary '
                      'lattice against analytic / sub-pixel-counting oracles.',
                 note='A-real; the Cython kernels (.so) cannot be rebuilt and are covered only by '
@@ -54,8 +56,11 @@ CLAIMED = {
                 text='Proved: overlap slices are exactly the common pixels (callee contract of the '
                      'cutout code), do_photometry / area_overlap / aperture_photometry modify no '
                      'argument, per-position loop iterations are independent (many positions = one '
-                     'at a time). The sum semantics itself is checked bounded against a pixel-loop '
-                     'oracle.',
+                     'at a time); the summed values are weight x data (weight x error^2 in float) '
+                     'over exactly the good pixels; area_overlap sums the weights with masked pixels '
+                     'counting zero; the NDData call form is the bare-array form on the container\'s '
+                     'own data, mask and uncertainty with the same method and subpixels. The sums '
+                     'end-to-end are checked bounded against a pixel-loop oracle.',
                 note='numpy aliasing tables; the weighted-sum postcondition is bounded, not proved'),
     'C03': dict(engine='pyvc', technique=f'{_T} (relational two-run contracts by self-composition) '
                                          f'+ {_B}',
@@ -146,7 +151,9 @@ CLAIMED = {
                                             f'+ {_B} (deep snapshots)',
                 text='One frame obligation per public entry point: no in-place write reaches a '
                      'caller-supplied object (parameters and constructor-supplied fields), callers '
-                     'checked against callee summaries. Deep-snapshot contracts confirm on real runs.',
+                     'checked against callee summaries (plotting methods included: they may draw '
+                     'on the axes they are given, nothing else). Deep-snapshot contracts confirm on '
+                     'real runs.',
                 note='numpy/astropy aliasing tables, declared frames and A-ext listed in the '
                      'evidence; known finding F22 (Ellipse geometry)'),
     'C11': dict(engine='pyvc', technique=f'{_T} (exclusion rule, threshold; getter purity) + {_B}',
@@ -187,7 +194,10 @@ CLAIMED = {
                 text='Proved: find_peaks candidates are the unmasked, non-border, non-NaN pixels '
                      'above threshold that equal their neighbourhood maximum; `brightest` keeps '
                      'min(N, n) distinct rows sorted by decreasing flux with no dropped row '
-                     'brighter than a kept one (all three finders); finder calls never rebind '
+                     'brighter than a kept one (all three finders); apply_filters keeps a row iff its '
+                     'reported sharpness, roundness and peak lie within the inclusive bounds (DAO, '
+                     'IRAF); supplied xycoords are rounded to the pixel containing the position; '
+                     'finder calls never rebind '
                      'configuration. The finders end-to-end are checked bounded against definition '
                      'oracles.',
                 note='maximum_filter output is a symbolic input of the block contract; argsort '
@@ -195,7 +205,7 @@ CLAIMED = {
     'C15': dict(engine='pyvc+rtc', technique=f'{_T} (dtype discipline at the sites under contract) '
                                              f'+ {_B}: representation matrix',
                 text='Proved at the sites under contract (do_photometry, ApertureStats cutouts, '
-                     'SourceCatalog.segment_fluxerr, detect_threshold): an error map / image that '
+                     'SourceCatalog.segment_fluxerr, detect_threshold, calc_total_error): an error map / image that '
                      'may arrive in any (narrow, unsigned integer) dtype is converted to float '
                      'before it is multiplied or squared, and is never the dtype a computed value is '
                      'cast to. Dtype / layout / container independence of everything else (compiled '
@@ -233,7 +243,8 @@ CLAIMED = {
                      'the table and the row loop carries only the declared accumulators; for array '
                      'input make_residual_image is, pixel by pixel, data minus the model image '
                      'made for the same shape, psf_shape and include_localbkg (non-finite data '
-                     'stays non-finite). Exact '
+                     'stays non-finite); one table row adds, inside its window, the model at the '
+                     'pixel plus that row\'s local background and leaves every other pixel alone. Exact '
                      'superposition, order invariance, additivity and units are checked bounded.',
                 note='model evaluation bounded only'),
     'C19': dict(engine='pyvc', technique=f'{_T} (monotone-prefix contract, coherence, frames) + '
@@ -243,7 +254,9 @@ CLAIMED = {
                      'difference of consecutive aperture sums with area = difference of overlap '
                      'areas and errors differenced in quadrature (a constant image yields the '
                      'constant); normalize / unnormalize keep caches '
-                     'coherent structurally; the mask argument is not modified. Aperture '
+                     'coherent structurally; the pixels a profile ignores are exactly the masked '
+                     'ones and those non-finite in data or error; the mask argument is not '
+                     'modified. Aperture '
                      'consistency and all <= 5-event normalisation histories are checked bounded.',
                 note='PCHIP interpolates its knots (assumed); scaled-cache values bounded'),
     'C20': dict(engine='pyvc+coherence', technique=f'{_T} (to_polar scalar and array forms, '
